@@ -1,6 +1,7 @@
 package eval
 
 import (
+	"net/url"
 	"fmt"
 	"go/ast"
 	"go/constant"
@@ -1855,6 +1856,22 @@ func (ev *Evaluator) native(pos token.Pos, fn *types.Func, recv Value, args []Va
 			return strings.ContainsRune(a.Const(), rune(r.C)), true
 		}
 		return K(int64(strings.IndexRune(a.Const(), rune(r.C)))), true
+	case "net/url.QueryUnescape", "net/url.PathUnescape":
+		a := argStr(0)
+		if !a.IsConst() {
+			ev.fail(pos, "%s of a symbolic string", full)
+		}
+		var out string
+		var err error
+		if full == "net/url.QueryUnescape" {
+			out, err = url.QueryUnescape(a.Const())
+		} else {
+			out, err = url.PathUnescape(a.Const())
+		}
+		if err != nil {
+			return Tuple{S(""), ErrVal{Msg: S(err.Error())}}, true
+		}
+		return Tuple{S(out), Nil{}}, true
 	case "path.Join", "path/filepath.Join":
 		var parts []string
 		for _, a := range args {
@@ -1903,12 +1920,24 @@ func (ev *Evaluator) native(pos token.Pos, fn *types.Func, recv Value, args []Va
 		return &FExpr{Op: "log", A: f}, true
 	case "math.Min", "math.Max", "math.Abs", "math.Ceil", "math.Round", "math.Trunc", "math.Sqrt":
 		var fs []float64
+		symbolic := false
 		for _, a := range args {
 			f, ok := a.(*FExpr)
-			if !ok || !f.IsConst() {
-				ev.fail(pos, "%s of a symbolic value", full)
+			if !ok {
+				ev.fail(pos, "%s of a non-float", full)
+			}
+			if !f.IsConst() {
+				symbolic = true
 			}
 			fs = append(fs, f.C)
+		}
+		if symbolic {
+			// kept as an uninterpreted operator: the result is no longer a rational function of its inputs
+			x := &FExpr{Op: strings.ToLower(strings.TrimPrefix(full, "math.")), A: args[0].(*FExpr)}
+			if len(args) > 1 {
+				x.B = args[1].(*FExpr)
+			}
+			return x, true
 		}
 		switch full {
 		case "math.Min":
